@@ -136,3 +136,156 @@ pub fn parse_bnode(buf: &[u8]) -> Option<BNode> {
 	}
 	Some(BNode { first, seps })
 }
+
+// ------------------------------------------------------------------ write-ahead log files
+/// Which record ids the replay at open must apply, computed from the bytes of the log files alone
+/// (own parser): logs ordered by the id of their first record; a record is applied iff it is
+/// complete, structurally valid, carries the expected next id and a correct CRC-32; a record that
+/// cannot be read to its end stops the replay of its file, a structurally invalid or out-of-sequence
+/// one ends the whole replay.
+pub fn expected_replay(dir: &Path, ncols: usize, index_bits: &dyn Fn(u8) -> Vec<u8>) -> Vec<u64> {
+	let mut logs: Vec<(u64, Vec<u8>)> = Vec::new();
+	if let Ok(rd) = std::fs::read_dir(dir) {
+		for e in rd.flatten() {
+			let n = e.file_name().to_string_lossy().to_string();
+			if let Some(rest) = n.strip_prefix("log") {
+				if rest.parse::<u32>().is_ok() && e.path().is_file() {
+					let data = std::fs::read(e.path()).unwrap_or_default();
+					if data.len() >= 9 {
+						let first = u64::from_le_bytes(data[1..9].try_into().unwrap());
+						logs.push((first, data));
+					}
+				}
+			}
+		}
+	}
+	logs.sort_by_key(|l| l.0);
+	let mut applied = Vec::new();
+	let mut last_enacted = match logs.first() {
+		Some(l) => l.0.wrapping_sub(1),
+		None => return applied,
+	};
+	'logs: for (_, data) in &logs {
+		let mut pos = 0usize;
+		loop {
+			match parse_record(&data[pos..], ncols, index_bits) {
+				Rec::Eof => break,                 // end of this file, or a record cut short: next file
+				Rec::Invalid => break 'logs,       // everything else is discarded
+				Rec::Ok { id, len } => {
+					if id != last_enacted.wrapping_add(1) {
+						break 'logs
+					}
+					applied.push(id);
+					last_enacted = id;
+					pos += len;
+				},
+			}
+		}
+	}
+	applied
+}
+
+pub enum Rec {
+	Ok { id: u64, len: usize },
+	Invalid,
+	Eof,
+}
+
+pub fn parse_record(b: &[u8], ncols: usize, index_bits: &dyn Fn(u8) -> Vec<u8>) -> Rec {
+	let mut p = 0usize;
+	macro_rules! need {
+		($n:expr) => {
+			if p + $n > b.len() {
+				return Rec::Eof
+			}
+		};
+	}
+	need!(1);
+	if b[0] != 1 {
+		// read_next: anything but BEGIN_RECORD at a record boundary is a bad structure
+		return Rec::Invalid
+	}
+	need!(9);
+	let id = u64::from_le_bytes(b[1..9].try_into().unwrap());
+	p = 9;
+	loop {
+		need!(1);
+		let op = b[p];
+		p += 1;
+		match op {
+			1 => return Rec::Invalid,
+			4 => {
+				need!(4);
+				let want = u32::from_le_bytes(b[p..p + 4].try_into().unwrap());
+				let mut h = crc32fast::Hasher::new();
+				h.update(&b[..p]);
+				if h.finalize() != want {
+					return Rec::Invalid
+				}
+				return Rec::Ok { id, len: p + 4 }
+			},
+			2 | 6 => {
+				need!(10);
+				let table = u16::from_le_bytes(b[p..p + 2].try_into().unwrap());
+				let index = u64::from_le_bytes(b[p + 2..p + 10].try_into().unwrap());
+				p += 10;
+				let col = (table >> 8) as usize;
+				let bits = (table & 0xff) as u32;
+				if col >= ncols {
+					return Rec::Invalid
+				}
+				// table generations the column knows (current and queued) or a newer one are acceptable
+				let known = index_bits(col as u8);
+				if op == 2 {
+					if !known.contains(&(bits as u8)) && known.iter().all(|k| (bits as u8) < *k) {
+						return Rec::Invalid
+					}
+					if bits >= 58 || index >= (1u64 << bits) * 64 {
+						return Rec::Invalid
+					}
+				}
+				need!(8);
+				let mask = u64::from_le_bytes(b[p..p + 8].try_into().unwrap());
+				p += 8;
+				let n = mask.count_ones() as usize * if op == 2 { 8 } else { 16 };
+				need!(n);
+				p += n;
+			},
+			3 => {
+				need!(10);
+				let table = u16::from_le_bytes(b[p..p + 2].try_into().unwrap());
+				let index = u64::from_le_bytes(b[p + 2..p + 10].try_into().unwrap());
+				p += 10;
+				let col = (table >> 8) as usize;
+				let tier = (table & 0xff) as usize;
+				if col >= ncols {
+					return Rec::Invalid
+				}
+				if index == 0 {
+					need!(16);
+					p += 16;
+				} else {
+					need!(2);
+					let hd = [b[p], b[p + 1]];
+					p += 2;
+					if hd == [0xff, 0xff] {
+						need!(8);
+						p += 8;
+					} else if tier == 255 && (hd == [0xfe, 0xff] || hd == [0xfd, 0xff] || hd == [0xfd, 0x7f]) {
+						need!(4094);
+						p += 4094;
+					} else {
+						let sz = (u16::from_le_bytes(hd) & 0x7fff) as usize;
+						need!(sz);
+						p += sz;
+					}
+				}
+			},
+			5 | 7 => {
+				need!(2);
+				p += 2;
+			},
+			_ => return Rec::Invalid,
+		}
+	}
+}
